@@ -263,7 +263,12 @@ func c05FailingReader(c *mon.Ctx, cs *c05Case, mv module.Version, cf mzip.Checke
 	}
 	victim.ReadErr = c05ReadErrs[h%len(c05ReadErrs)]
 	victim.ReadErrAt = []int{0, 1, len(victim.Data) / 2, len(victim.Data) - 1, len(victim.Data)}[(h/7)%5]
-	defer func() { victim.ReadErr, victim.ReadErrAt = nil, 0 }()
+	if (h/35)%3 == 0 {
+		// the file cannot even be opened any more (it was there when the list was made)
+		victim.OpenErr = []error{fs.ErrNotExist, fs.ErrPermission, &fs.PathError{Op: "open", Path: victim.P, Err: fs.ErrNotExist}, errors.New("injected open fault")}[(h/105)%4]
+		victim.ReadErr = victim.OpenErr
+	}
+	defer func() { victim.ReadErr, victim.ReadErrAt, victim.OpenErr = nil, 0, nil }()
 	var buf bytes.Buffer
 	var err error
 	wit := func() any {
@@ -277,7 +282,11 @@ func c05FailingReader(c *mon.Ctx, cs *c05Case, mv module.Version, cf mzip.Checke
 		c.Violation("create-reports-success-though-reading-a-file-failed", cs.id, wit())
 		return
 	}
-	c.Class("failing-reader:create-fails:" + victim.ReadErr.Error())
+	if victim.OpenErr != nil {
+		c.Class("failing-open:create-fails")
+	} else {
+		c.Class("failing-reader:create-fails:" + victim.ReadErr.Error())
+	}
 }
 
 // c05CutWriter accepts limit bytes and then fails every write.
